@@ -75,7 +75,7 @@ def pass1 : Nat → Bytes → Nat → Nat → Res (List Nat × Nat)
       else
         let seg := (List.range (1 + w)).map (fun k => i + k + shift)
         let next (shift' : Nat) : Res (List Nat × Nat) :=
-          match pass1 fuel (tail.drop w) (i + 1 + w) shift' with
+          match pass1 fuel (tail.drop w) (i + (w + 1)) shift' with
           | .ok (np, sh) => .ok (seg ++ np, sh)
           | .err e => .err e
           | .panic m => .panic m
@@ -108,7 +108,7 @@ def pass2 (φ : Nat → Nat) (sm : SrcMap) : Nat → Bytes → Nat → Nat → R
     | none => .panic "runtime error: index out of range"            -- opWidth[op]
     | some w =>
       let next (emitted : Bytes) : Res (Bytes × SrcMap) :=
-        match pass2 φ sm fuel (tail.drop w) (i + 1 + w) (n + emitted.length) with
+        match pass2 φ sm fuel (tail.drop w) (i + (w + 1)) (n + emitted.length) with
         | .ok (out, m) => .ok (emitted ++ out, here ++ m)
         | .err e => .err e
         | .panic m => .panic m
@@ -145,5 +145,25 @@ def newOff (ins : Bytes) (pos : Nat) : Nat :=
   match pass1 (ins.length + 1) ins 0 0 with
   | .ok (newPos, shift) => relocate newPos shift pos
   | _ => pos
+
+/-! ### what the conversion is meant to be (specification side of `Props.C11.conv_decodes`) -/
+
+/-- an instruction moved by the offset map `φ`: same opcode; operands of the re-encoded
+    (jump-class) opcodes mapped through `φ`, a zero SETUPTRY operand kept; other operands kept -/
+def relocInstr (φ : Nat → Nat) (x : Instr) : Instr :=
+  ⟨φ x.off, x.op, if isJumpClass x.op then relocArgs φ x.op x.args else x.args⟩
+
+/-- the same, laying the instructions out one behind the other from offset `n` in the current
+    format (used to state the inductive step; equal to `map (relocInstr φ)` by `relocInstrs_eq`) -/
+def relocInstrs (φ : Nat → Nat) : List Instr → Nat → List Instr
+  | [], _ => []
+  | x :: xs, n =>
+    ⟨n, x.op, if isJumpClass x.op then relocArgs φ x.op x.args else x.args⟩ ::
+      relocInstrs φ xs (n + (((opcodeOperands x.op).getD []).sum + 1))
+
+/-- source-map entries of old instructions re-keyed to the offsets of the new ones -/
+def convSm (sm : SrcMap) : List Instr → List Instr → SrcMap
+  | x :: xs, y :: ys => (match sm.lookup x.off with | some p => [(y.off, p)] | none => []) ++ convSm sm xs ys
+  | _, _ => []
 
 end UgoVerif.Model.V1
